@@ -66,7 +66,11 @@ IntBin(op, a, b) ==
 BoolBin(op, a, b) ==
     CASE op = "eq" -> BoolV(a.v = b.v) [] op = "ne" -> BoolV(a.v # b.v)
       [] op = "and" -> BoolV(a.v /\ b.v) [] op = "or" -> BoolV(a.v \/ b.v) [] op = "xor" -> BoolV(a.v # b.v)
-Bin(op, a, b) == IF a.t = "int" THEN IntBin(op, a, b) ELSE BoolBin(op, a, b)
+(* == and != on arrays and structs compare the values member by member (here: TLA+ equality of
+   the value terms, which is exactly that) *)
+AggBin(op, a, b) == CASE op = "eq" -> BoolV(a = b) [] op = "ne" -> BoolV(a # b)
+Bin(op, a, b) == IF a.t = "int" THEN IntBin(op, a, b)
+                 ELSE IF a.t = "bool" THEN BoolBin(op, a, b) ELSE AggBin(op, a, b)
 Un(op, a) == CASE op = "neg" -> IntV(a.w, a.s, Neg(a.b))
                [] op = "bnot" -> IntV(a.w, a.s, Not(a.b))
                [] op = "not" -> BoolV(~a.v)
